@@ -56,3 +56,20 @@ package web
 //@   loop 9 invariant mm.Sets[metricName][tagsKey].Values != nil && (forall x string :: (x in mm.Sets[metricName][tagsKey].Values) ==> (exists i int :: off(set.Values) <= i && i <= off(set.Values) + rangeindex && at(set.Values, i) == x)) && (forall i int :: off(set.Values) <= i && i <= off(set.Values) + rangeindex ==> (at(set.Values, i) in mm.Sets[metricName][tagsKey].Values))
 //@   loop 9 invariant forall n string, t string :: n in mm.Sets && t in mm.Sets[n] && (n != metricName || t != tagsKey) ==> mm.Sets[n][t].Values != mm.Sets[metricName][tagsKey].Values && (forall x string :: (x in mm.Sets[n][t].Values) == pre(x in mm.Sets[n][t].Values))
 //@   modifies everything
+
+// ---- EventHandler (C14/C19): a decoded event is dispatched exactly once with its fields; an unreadable or
+// undecodable body is answered with an error status and dispatches nothing.
+//@ func (*rawHttpHandlerV2).EventHandler
+//@   requires rhh != nil && w != nil && req != nil && rhh.handler != nil && rhh.logger != nil
+//@   callsite DispatchEvent requires arg1.Title == msg.Title && arg1.Text == msg.Text && arg1.DateHappened == msg.DateHappened && arg1.Source == msg.Hostname && arg1.AggregationKey == msg.AggregationKey && arg1.SourceTypeName == msg.SourceTypeName && arg1.Tags == msg.Tags
+//@   callsite DispatchEvent requires (msg.Priority == pb.EventV2_Low) == (arg1.Priority == gostatsd.PriLow) && (msg.Priority == pb.EventV2_Normal ==> arg1.Priority == gostatsd.PriNormal)
+//@   callsite DispatchEvent requires (msg.Type == pb.EventV2_Info ==> arg1.AlertType == gostatsd.AlertInfo) && (msg.Type == pb.EventV2_Warning ==> arg1.AlertType == gostatsd.AlertWarning) && (msg.Type == pb.EventV2_Error ==> arg1.AlertType == gostatsd.AlertError) && (msg.Type == pb.EventV2_Success ==> arg1.AlertType == gostatsd.AlertSuccess)
+//@   callsite DispatchEvent requires calls(WriteHeader) == 0
+//@   callsite WriteHeader requires calls(WriteHeader) == 0 && (calls(DispatchEvent) == 0 ==> statusCode >= 400) && (calls(DispatchEvent) == 1 ==> statusCode == 202)
+//@   ensures  calls(WriteHeader) == 1 && calls(DispatchEvent) <= 1
+//@   modifies everything
+//@ func (*rawHttpHandlerV2).readBody
+//@   trusted
+//@   ensures  result1 == 0 || result1 >= 400
+//@   modifies everything
+//@   preserves web.rawHttpHandlerV2
